@@ -1437,4 +1437,219 @@ theorem ancestorH_reach {h : Heap} : ∀ (segs : List String) (c x : Addr), ance
       simp only [hcc] at ha
       exact (childH_reach (contChildH_some hcc).1).trans (ancestorH_reach (t :: rest) y x ha)
 
+/-! ## 9. frame for handles: calls on a handle that shares no container / list with a root -/
+
+theorem shrink_abs_frame {h h' : Heap} {c root : Addr} (hs : ShrinkSpec h h') (hc : h.Closed)
+    (hfr : ∀ a, ¬ Reach h c a → h'.get? a = h.get? a) (hrlt : root < h.size) (hap : Apart h root c) (f : Nat) :
+    absH f h' root = absH f h root := by
+  apply absH_agree
+  intro b hb
+  by_cases hcb : Reach h c b
+  · obtain ⟨cell, hg⟩ := get?_some_of_lt (reach_lt hc hb hrlt)
+    cases cell with
+    | leaf s => rw [hs.leaves b s hg, hg]
+    | list xs => exact absurd ⟨_, hg, rfl⟩ (hap b hb hcb)
+    | cont kvs => exact absurd ⟨_, hg, rfl⟩ (hap b hb hcb)
+  · exact hfr b hcb
+
+/-- FRAME for handles, every call: a call made on a handle whose graph shares no container / list
+    with the graph of `root` leaves `root`'s abstraction unchanged -/
+theorem hstep_abs_frame {h h' : Heap} {op : HOp} {ret : Option Addr} (hi : Inv h) (hok : op.Ok h)
+    (he : hstep h op = .ok (h', ret)) {root : Addr} (hrlt : root < h.size) (hap : Apart h root op.target)
+    (f : Nat) : absH f h' root = absH f h root := by
+  obtain ⟨rank, hr⟩ := hi.acyclic
+  obtain ⟨htl, hval⟩ := hok
+  have unwrap : ∀ {α : Type} (o : Option α) (g : α → Heap × Option Addr),
+      outcomeOfOption (o.map g) = .ok (h', ret) → ∃ x, o = some x ∧ g x = (h', ret) := by
+    intro α o g hx
+    cases o with
+    | none => simp [outcomeOfOption] at hx
+    | some x => exact ⟨x, rfl, by simpa [outcomeOfOption] using hx⟩
+  cases op with
+  | addValue c name v =>
+    obtain ⟨x, hx, hf⟩ := unwrap _ _ he
+    cases hf
+    obtain ⟨w, spec⟩ := addH_spec hr hi.nilOk hi.mapsOk hx
+    exact spec.abs_frame hi.closed hrlt hap f
+  | addValueAt c path v =>
+    obtain ⟨x, hx, hf⟩ := unwrap _ _ he
+    cases hf
+    obtain ⟨hv, _⟩ := hval v rfl
+    obtain ⟨w, spec⟩ := addAtSegsH_spec hi.closed hr hi.nilOk hi.mapsOk hv _ c _ (Ytk.splitPath_ne_nil path) htl hx
+    exact spec.abs_frame hi.closed hrlt hap f
+  | addContainer c name =>
+    obtain ⟨x, hx, hf⟩ := unwrap _ _ he
+    obtain ⟨h2, b⟩ := x
+    cases hf
+    obtain ⟨rfl, w, spec⟩ := addContainerH_spec hr hi.nilOk hi.mapsOk hx
+    have hl := le_alloc h (.cont [])
+    have hwlt : w < h.size := reach_lt hi.closed (reach_of_le hl hi.closed spec.reach_w htl) htl
+    apply absH_agree
+    intro b hb
+    have hblt := reach_lt hi.closed hb hrlt
+    rw [spec.frame b (Nat.lt_of_lt_of_le hblt (size_le_of_le hl)) ?_, get?_eq_of_le hl hblt]
+    intro e; subst e
+    obtain ⟨cw, h1w, hleaf⟩ := spec.composite_w
+    rw [get?_eq_of_le hl hwlt] at h1w
+    exact hap b hb (reach_of_le hl hi.closed spec.reach_w htl) ⟨cw, h1w, hleaf⟩
+  | addList c name =>
+    obtain ⟨x, hx, hf⟩ := unwrap _ _ he
+    obtain ⟨h2, b⟩ := x
+    cases hf
+    obtain ⟨rfl, w, spec⟩ := addListH_spec hr hi.nilOk hi.mapsOk hx
+    have hl := le_alloc h (.list [])
+    have hwlt : w < h.size := reach_lt hi.closed (reach_of_le hl hi.closed spec.reach_w htl) htl
+    apply absH_agree
+    intro b hb
+    have hblt := reach_lt hi.closed hb hrlt
+    rw [spec.frame b (Nat.lt_of_lt_of_le hblt (size_le_of_le hl)) ?_, get?_eq_of_le hl hblt]
+    intro e; subst e
+    obtain ⟨cw, h1w, hleaf⟩ := spec.composite_w
+    rw [get?_eq_of_le hl hwlt] at h1w
+    exact hap b hb (reach_of_le hl hi.closed spec.reach_w htl) ⟨cw, h1w, hleaf⟩
+  | remove c name =>
+    obtain ⟨x, hx, hf⟩ := unwrap _ _ he
+    cases hf
+    exact shrink_abs_frame (remove_spec hx) hi.closed
+      (fun a hna => remove_frame hx (fun e => hna (e ▸ .refl _))) hrlt hap f
+  | removeAt c path =>
+    obtain ⟨x, hx, hf⟩ := unwrap _ _ he
+    cases hf
+    unfold removeAtH at hx
+    split at hx
+    · exact shrink_abs_frame (removeAtSegsH_spec _ c _ hx) hi.closed (removeAtSegsH_frame _ c _ hx) hrlt hap f
+    · cases hx
+  | child c name =>
+    simp only [hstep, Outcome.ok.injEq, Prod.mk.injEq] at he
+    obtain ⟨rfl, _⟩ := he; rfl
+  | lookup c path =>
+    simp only [hstep, Outcome.ok.injEq, Prod.mk.injEq] at he
+    obtain ⟨rfl, _⟩ := he; rfl
+  | listSet l idx v =>
+    obtain ⟨x, hx, hf⟩ := unwrap _ _ he
+    cases hf
+    exact (listSet_spec hx).abs_frame hi.closed hrlt hap f
+  | listMustSet l idx v =>
+    simp only [hstep] at he
+    cases hms : listMustSetH h l idx v with
+    | ok x =>
+      rw [hms] at he
+      simp only [Outcome.map, Outcome.ok.injEq, Prod.mk.injEq] at he
+      obtain ⟨rfl, _⟩ := he
+      exact (listMustSetH_spec hms).abs_frame hi.closed hrlt hap f
+    | err => rw [hms] at he; simp [Outcome.map] at he
+    | panic => rw [hms] at he; simp [Outcome.map] at he
+  | listAppend l v =>
+    obtain ⟨x, hx, hf⟩ := unwrap _ _ he
+    cases hf
+    exact (listAppend_spec hx).abs_frame hi.closed hrlt hap f
+  | listClear l =>
+    obtain ⟨x, hx, hf⟩ := unwrap _ _ he
+    cases hf
+    refine shrink_abs_frame (listClear_spec hx) hi.closed ?_ hrlt hap f
+    intro a hna
+    unfold listClear at hx
+    split at hx
+    · simp only [Option.some.injEq] at hx; subst hx
+      exact get?_write_ne h _ (fun e => hna (e ▸ .refl _))
+    · cases hx
+  | compact c =>
+    obtain ⟨x, hx, hf⟩ := unwrap _ _ he
+    cases hf
+    exact shrink_abs_frame (compactF_spec _ _ c _ hx) hi.closed (compactF_frame _ _ c _ hx) hrlt hap f
+
+/-! ## 10. overwriting / removing a member detaches the node that was stored there -/
+
+theorem kids_indices {kvs : AMap Addr} {k1 k2 : String} {a1 a2 : Addr} (h1 : (k1, a1) ∈ kvs) (h2 : (k2, a2) ∈ kvs)
+    (hne : k1 ≠ k2) :
+    ∃ (i j : Nat), i ≠ j ∧ (Cell.cont kvs).kids[i]? = some a1 ∧ (Cell.cont kvs).kids[j]? = some a2 := by
+  obtain ⟨i, hi⟩ := List.getElem?_of_mem h1
+  obtain ⟨j, hj⟩ := List.getElem?_of_mem h2
+  refine ⟨i, j, ?_, by simp [Cell.kids, List.getElem?_map, hi], by simp [Cell.kids, List.getElem?_map, hj]⟩
+  intro e; subst e
+  rw [hi] at hj
+  simp only [Option.some.injEq, Prod.mk.injEq] at hj
+  exact hne hj.1
+
+/-- the container `c` gets a new children map in which the member `name` (which held `x`) is gone
+    or replaced: afterwards `c` and `x` share no container / list -/
+theorem write_detaches {h : Heap} {rank : Addr → Nat} (hr : h.RankedBy rank) {c x : Addr} (hs : SibSep h c)
+    {kvs kvs' : AMap Addr} (hg : h.get? c = some (.cont kvs)) {name : String} (hx : AMap.get? kvs name = some x)
+    (hk : ∀ p ∈ kvs', (p ∈ kvs ∧ p.1 ≠ name) ∨ (Apart h p.2 x ∧ ¬ Reach h p.2 c)) :
+    Apart (h.write c (.cont kvs')) c x := by
+  have hxk : x ∈ (Cell.cont kvs).kids := mem_kids_of_get? hx
+  have hxc : ¬ Reach h x c := fun hr' => not_reach_parent hr hg hxk hr' rfl
+  intro b hcb hxb hcomp
+  have hxb' : Reach h x b := (reach_write_frame _ hxc).mp hxb
+  have hbc : b ≠ c := fun e => hxc (e ▸ hxb')
+  have hcomp' : Composite h b := by
+    obtain ⟨cell, hgb, hl⟩ := hcomp
+    rw [get?_write_ne h _ hbc] at hgb
+    exact ⟨cell, hgb, hl⟩
+  cases hcb with
+  | refl _ => exact hbc rfl
+  | @step _ k _ cell hgc hkm hkb =>
+    rw [get?_write_self h _ (get?_lt hg)] at hgc
+    cases Option.some.inj hgc
+    simp only [Cell.kids, List.mem_map] at hkm
+    obtain ⟨p, hp, rfl⟩ := hkm
+    rcases hk p hp with ⟨hpk, hpn⟩ | ⟨hvx, hvc⟩
+    · have hpc : ¬ Reach h p.2 c := fun hr' =>
+        not_reach_parent hr hg (by simp only [Cell.kids, List.mem_map]; exact ⟨p, hpk, rfl⟩) hr' rfl
+      have hkb' : Reach h p.2 b := (reach_write_frame _ hpc).mp hkb
+      obtain ⟨i, j, hij, hi, hj⟩ := kids_indices (k1 := p.1) (a1 := p.2) hpk (AMap.mem_of_get? hx) hpn
+      exact hs c _ (.refl _) hg i j p.2 x hi hj hij b hkb' hxb' hcomp'
+    · exact hvx b ((reach_write_frame _ hvc).mp hkb) hxb' hcomp'
+
+theorem mem_erase_ne {kvs : AMap Addr} (hs : AMap.Sorted kvs) {name : String} {p : String × Addr}
+    (hp : p ∈ AMap.erase kvs name) : p ∈ kvs ∧ p.1 ≠ name := by
+  refine ⟨Ytk.AMap.mem_erase hp, ?_⟩
+  intro e
+  have := AMap.get?_of_mem (AMap.sorted_erase hs name) (x := p.1) (a := p.2) hp
+  rw [e, AMap.get?_erase_self hs] at this
+  cases this
+
+theorem mem_insert_ne {kvs : AMap Addr} (hs : AMap.Sorted kvs) {name : String} {v : Addr} {p : String × Addr}
+    (hp : p ∈ AMap.insert kvs name v) : (p ∈ kvs ∧ p.1 ≠ name) ∨ p.2 = v := by
+  by_cases e : p.1 = name
+  · right
+    have := AMap.get?_of_mem (AMap.sorted_insert hs name v) (x := p.1) (a := p.2) hp
+    rw [e, AMap.get?_insert_self] at this
+    exact (Option.some.inj this).symm
+  · rcases Ytk.AMap.mem_insert hp with rfl | hp
+    · exact absurd rfl e
+    · exact Or.inl ⟨hp, e⟩
+
+theorem childH_plain {h : Heap} {c : Addr} {kvs : AMap Addr} (hg : h.get? c = some (.cont kvs)) {name : String}
+    (hplain : hasIdxSuffix name = false) : childH h c name = AMap.get? kvs name := by
+  simp only [childH, hg, childKvs, Ytk.parseSeg_of_noSuffix hplain]
+
+/-- `Remove(name)` detaches the node that was stored under the (plain) name -/
+theorem remove_detaches {h h' : Heap} {rank : Addr → Nat} (hr : h.RankedBy rank) (hm : h.MapsOk) {c x : Addr}
+    (hs : SibSep h c) {name : String} (hplain : hasIdxSuffix name = false) (hx : childH h c name = some x)
+    (he : Ytk.Heap.remove h c name = some h') : Apart h' c x := by
+  unfold Ytk.Heap.remove at he
+  split at he
+  · rename_i kvs hg
+    simp only [Option.some.injEq] at he; subst he
+    rw [childH_plain hg hplain] at hx
+    exact write_detaches hr hs hg hx (fun p hp => Or.inl (mem_erase_ne (hm c kvs hg) hp))
+  · cases he
+
+/-- `AddValue(name, v)` (hence `AddContainer` / `AddList` too) detaches the node that was stored under
+    the (plain) name, provided the new node shares no container / list with it -/
+theorem addH_detaches {h h' : Heap} {rank : Addr → Nat} (hr : h.RankedBy rank) (hm : h.MapsOk) {c x v : Addr}
+    (hs : SibSep h c) {name : String} (hplain : hasIdxSuffix name = false) (hx : childH h c name = some x)
+    (hvx : Apart h v x) (hvc : ¬ Reach h v c) (he : addH h c name v = some h') : Apart h' c x := by
+  unfold addH at he
+  split at he
+  · rename_i kvs hg
+    simp only [Ytk.parseSeg_of_noSuffix hplain, Option.some.injEq] at he; subst he
+    rw [childH_plain hg hplain] at hx
+    refine write_detaches hr hs hg hx (fun p hp => ?_)
+    rcases mem_insert_ne (hm c kvs hg) hp with hp | hp
+    · exact Or.inl hp
+    · exact Or.inr (by rw [hp]; exact ⟨hvx, hvc⟩)
+  · cases he
+
 end Ytk.Heap
